@@ -40,6 +40,7 @@ package dns
 //@   opt no-safety
 //@   requires t != nil && q != nil
 //@   assert at "c <- &Envelope{in.Answer, nil}@1" uptodate: q.Id == in.Id && in.Rcode == 0 && n == 0 && callres("isSOAFirst") && qser >= serial
+//@   assert at "t.tsigTimersOnly = true" behind: n == 0 ==> qser < serial
 //@   assert at "c <- &Envelope{in.Answer, nil}@2" done: q.Id == in.Id && in.Rcode == 0 && ((axfr && n == 2) || n == 3)
 //@   assert at "c <- &Envelope{in.Answer, nil}@3" more: q.Id == in.Id && in.Rcode == 0 && n < 3 && !(axfr && n == 2)
 //@   loop * invariant 0 <= n && n < 3 && !(axfr && n == 2)
